@@ -1,10 +1,14 @@
 """C20, cache part: request histories against the tile cache directory
 (driven from c20_srtm.py).
 
-A history = an initial set of tiles present in TYPHON_DATA_PATH/topography
-(as sparse files named like the extracted archive members) followed by up to
-three SRTM30.elevation requests. SRTM30.get_tile is the real one;
-download_tile is replaced by a recorder that materialises the sparse file.
+A history = an environment that decides where the cache directory is, an
+initial set of tiles present in it (as sparse files named like the extracted
+archive members) and up to three SRTM30.elevation requests, each issued from
+another working directory. SRTM30.get_tile is the real one; download_tile is
+replaced by a recorder that materialises the sparse file where the real one
+stores it (typhon.topography._get_data_path()). The cache directory is not
+named by the statement, so the model is: the .DEM files below the scratch
+root, which must all be in one directory.
 Every sequence of length <= 3 is a prefix of a sequence of length 3, so the
 27 maximal sequences per initial state are executed from a fresh state and
 every step is checked; a prefix is counted as a case once.
@@ -23,6 +27,13 @@ REQUESTS = {"one": (38.0, 18.0, 39.0, 19.0),     # w020n40
 QUICK_INITIAL = [(), ("w020n40",), ("w020n90", "e020n40"), CORNER]
 DEM_BYTES = 6000 * 4800 * 2
 DEPTH = 3
+# environment -> the one variable (besides HOME) that is set, and where the
+# harness may put tiles beforehand (only TYPHON_DATA_PATH has a documented
+# layout; the other caches are warmed by earlier requests of the history)
+ENVS = {"data_path": ("TYPHON_DATA_PATH", os.path.join("data", "topography")),
+        "xdg": ("XDG_CACHE_HOME", None),
+        "home": (None, None)}
+VARIABLES = ("TYPHON_DATA_PATH", "XDG_CACHE_HOME", "HOME")
 
 
 def shards(tier, seed):
@@ -31,7 +42,9 @@ def shards(tier, seed):
     else:
         initial = [c for n in range(len(CORNER) + 1)
                    for c in itertools.combinations(CORNER, n)]
-    return [("cache", init, first) for init in initial for first in REQUESTS]
+    return [("cache", env, init, first) for env in ENVS
+            for init in (initial if ENVS[env][1] else [()])
+            for first in REQUESTS]
 
 
 def materialise(cache_dir, tile):
@@ -40,66 +53,89 @@ def materialise(cache_dir, tile):
         f.truncate(DEM_BYTES)
 
 
-def listing(cache_dir):
-    """-> (sorted tile names present, sorted other entries)."""
-    names = os.listdir(cache_dir) if os.path.isdir(cache_dir) else []
-    tiles = sorted(n[:-4].lower() for n in names if n.endswith(".DEM"))
-    return tiles, sorted(n for n in names if not n.endswith(".DEM"))
+def listing(root):
+    """-> (sorted tile names present, sorted directories holding them, sorted
+    other files), everything below root."""
+    tiles, dirs, stray = set(), set(), []
+    for path, _, names in os.walk(root):
+        for n in names:
+            if n.endswith(".DEM"):
+                tiles.add(n[:-4].lower())
+                dirs.add(os.path.relpath(path, root))
+            else:
+                stray.append(os.path.relpath(os.path.join(path, n), root))
+    return sorted(tiles), sorted(dirs), sorted(stray)
 
 
-def run_history(initial, sequence):
+def run_history(env, initial, sequence):
     """Executes the requests from a fresh state; one record per request."""
     from typhon import topography
     from typhon.topography import SRTM30
     root = driver.fresh_dir("c20-cache")
-    cache_dir = os.path.join(root, "topography")
+    variable, initial_dir = ENVS[env]
     for tile in initial:
-        materialise(cache_dir, tile)
+        materialise(os.path.join(root, initial_dir), tile)
     downloads = []
 
     def recording_download(name):
         downloads.append(name)
-        materialise(cache_dir, name)
+        materialise(topography._get_data_path(), name)
 
-    saved_env = os.environ.get("TYPHON_DATA_PATH")
+    saved_env = {v: os.environ.get(v) for v in VARIABLES}
+    saved_cwd = os.getcwd()
     saved_download = SRTM30.__dict__["download_tile"]
-    os.environ["TYPHON_DATA_PATH"] = root
+    for v in VARIABLES:
+        os.environ.pop(v, None)
+    os.environ["HOME"] = os.path.join(root, "home")
+    os.makedirs(os.environ["HOME"])
+    if variable:
+        os.environ[variable] = os.path.join(root, "data")
+        os.makedirs(os.environ[variable], exist_ok=True)
     topography._data_path = None
     SRTM30.download_tile = staticmethod(recording_download)
     steps = []
     try:
-        for request in sequence:
-            before = listing(cache_dir)[0]
+        for number, request in enumerate(sequence):
+            cwd = os.path.join(root, "cwd", str(number))
+            os.makedirs(cwd)
+            os.chdir(cwd)
+            before = listing(root)[0]
             del downloads[:]
             error = None
             try:
                 SRTM30.elevation(*REQUESTS[request])
             except Exception as e:
                 error = e
-            after, stray = listing(cache_dir)
+            after, dirs, stray = listing(root)
             steps.append(dict(request=request, before=before,
                               downloads=list(downloads), after=after,
-                              stray=stray, error=error))
+                              dirs=dirs, stray=stray, error=error))
     finally:
+        os.chdir(saved_cwd)
         SRTM30.download_tile = saved_download
         topography._data_path = None
-        if saved_env is None:
-            del os.environ["TYPHON_DATA_PATH"]
-        else:
-            os.environ["TYPHON_DATA_PATH"] = saved_env
+        for v, value in saved_env.items():
+            if value is None:
+                os.environ.pop(v, None)
+            else:
+                os.environ[v] = value
         shutil.rmtree(root, ignore_errors=True)
     return steps
 
 
 def check_step(step):
-    """A tile is downloaded iff the request needs it and it was absent before
-    the request, once; nothing disappears from the cache directory."""
+    """All tiles are in one directory; a tile is downloaded iff the request
+    needs it and it was absent before the request, once; nothing disappears
+    from the cache directory."""
     needed = set(tiles_intersecting(*REQUESTS[step["request"]]))
     before = set(step["before"])
     want = sorted(needed - before)
     got = step["downloads"]
     info = "request %s, present before: %s" % (step["request"],
                                                step["before"])
+    if len(step["dirs"]) > 1:
+        return ("cache/several-cache-directories", "one directory",
+                step["dirs"], info + "; downloaded: %s" % got)
     if any(t in before for t in got):
         return ("cache/downloaded-although-present", want, got, info)
     if len(set(got)) < len(got):
@@ -118,41 +154,43 @@ def check_step(step):
 
 
 def signature(step):
-    return (step["before"], step["downloads"], step["after"], step["stray"],
-            repr(step["error"]))
+    return (step["before"], step["downloads"], step["after"], step["dirs"],
+            step["stray"], repr(step["error"]))
 
 
 def run_shard(shard):
-    _, initial, first = shard
+    _, env, initial, first = shard
     res = driver.ShardResult()
     seen = {}
     for rest in itertools.product(REQUESTS, repeat=DEPTH - 1):
         sequence = (first,) + rest
-        steps = run_history(initial, sequence)
+        steps = run_history(env, initial, sequence)
         res.count("cache_requests_executed", len(steps))
         for depth, step in enumerate(steps, 1):
             prefix = sequence[:depth]
             if prefix in seen:
                 if seen[prefix] != signature(step):
-                    res.error("NONDETERMINISM in history %r %r"
-                              % (initial, prefix))
+                    res.error("NONDETERMINISM in history %r %r %r"
+                              % (env, initial, prefix))
                 continue
             seen[prefix] = signature(step)
             needed = tiles_intersecting(*REQUESTS[step["request"]])
             res.case(nontrivial=bool(set(needed) & set(step["before"])))
             res.count("cache_cases")
-            res.add("cache_states", tuple(step["before"]))
+            res.add("cache_states", (env,) + tuple(step["before"]))
             bad = check_step(step)
             if bad is not None:
-                res.violation(bad[0], dict(part="cache", initial=initial,
-                                           sequence=prefix), *bad[1:])
-    res.sample(dict(part="cache", initial=initial, sequence=sequence,
+                res.violation(bad[0], dict(part="cache", env=env,
+                                           initial=initial, sequence=prefix),
+                              *bad[1:])
+    res.sample(dict(part="cache", env=env, initial=initial, sequence=sequence,
                     downloads=[s["downloads"] for s in steps]))
     return res
 
 
 def replay(case):
-    steps = run_history(tuple(case["initial"]), tuple(case["sequence"]))
+    steps = run_history(case["env"], tuple(case["initial"]),
+                        tuple(case["sequence"]))
     bad = check_step(steps[-1])
     if bad is None:
         return dict(ok=True)
